@@ -312,3 +312,24 @@ Section Bounds.
     unfold init. cbn [emap]. apply init_emap_ok; [constructor|assumption].
   Qed.
 End Bounds.
+
+(* ------------------------------------------------------------------ index arithmetic of the regular refresh *)
+Lemma refresh_due_sat_is_model (lastreg lastidx : N) :
+  lastidx <= u32max -> refresh_due_sat lastreg lastidx = (lastreg + 100000 <? lastidx).
+Proof.
+  intros H. unfold refresh_due_sat, sat_add.
+  destruct (N.min_spec u32max (lastreg + 100000)) as [[Hlt ->]|[Hle ->]]; [|reflexivity].
+  destruct (N.ltb_spec u32max lastidx); destruct (N.ltb_spec (lastreg + 100000) lastidx); try reflexivity; lia.
+Qed.
+
+Lemma refresh_due_before_fix_panics :
+  exists lastreg lastidx, lastreg <= lastidx /\ lastidx <= u32max /\
+    refresh_due_before_fix lastreg lastidx = Panic site_add_overflow.
+Proof. exists 4294867296, 4294867297. repeat split; vm_compute; congruence. Qed.
+
+Lemma refresh_due_before_fix_ok_below (lastreg lastidx : N) :
+  lastreg + 100000 <= u32max -> refresh_due_before_fix lastreg lastidx = Ok (refresh_due_sat lastreg lastidx).
+Proof.
+  intros H. unfold refresh_due_before_fix, add_chk, refresh_due_sat, sat_add.
+  destruct (N.leb_spec (lastreg + 100000) u32max); [|lia]. cbn. rewrite N.min_r by lia. reflexivity.
+Qed.
